@@ -219,10 +219,21 @@ def _is_logger_call(func, f):
 
 
 def _is_lazy_init(func, attr_node):
-    """self.__children = [] guarded by `not hasattr(self, "<that field>")`"""
+    """self.__children = [] guarded by `not hasattr(self, "<that field>")` - or stored in the `except AttributeError`
+    handler of a try whose body reads that very attribute of the same object"""
     if func.cls is None:
         return False
     m = mangle(func.cls.name, attr_node.attr)
+    for n in walk_own(func.node):
+        if isinstance(n, ast.Try) and not n.finalbody:
+            for h in n.handlers:
+                if h.type is not None and norm(h.type) == "AttributeError":
+                    for a in h.body:
+                        if isinstance(a, ast.Assign) and any(t is attr_node for t in a.targets) and isinstance(a.value, ast.List) and not a.value.elts:
+                            reads = [x for st in n.body for x in ast.walk(st) if isinstance(x, ast.Attribute) and isinstance(x.ctx, ast.Load)
+                                     and x.attr == attr_node.attr and norm(x.value) == norm(attr_node.value)]
+                            if reads:
+                                return True
     for n in walk_own(func.node):
         if isinstance(n, ast.If) and not n.orelse and len(n.body) == 1 and isinstance(n.body[0], ast.Assign):
             a = n.body[0]
